@@ -26,9 +26,42 @@ func faultSpec(disc SpecData, o *model.Obs, faults ...string) SpecData {
 
 func protocolMore(t *testing.T, bind *Binding, job *Job, p *sdl.Program, acc *statAcc, w *model.World, out *model.Outcome, do func(SpecData) *model.Obs) {
 	switch job.Property {
-	case "C05", "C12":
+	case "C12":
 		for _, s := range sweepSpecs(p, job, SpecData{}) {
 			do(s)
+		}
+	case "C05":
+		var first *model.Obs
+		var firstSpec SpecData
+		for _, s := range sweepSpecs(p, job, SpecData{}) {
+			o := do(s)
+			if first == nil && o.OK() {
+				first, firstSpec = o, s
+			}
+		}
+		// "once per start" also holds when a callback fails: a few of the discovered callback
+		// sites fail in turn (early-reference callbacks first: they are the rare ones)
+		if first != nil {
+			var early, other []string
+			for _, site := range first.Sites {
+				kind, _, _ := strings.Cut(site, ":")
+				switch kind {
+				case "early":
+					early = append(early, site)
+				case "before", "after", "afterInst", "props", "beforeInst", "init", "aps":
+					other = append(other, site)
+				}
+			}
+			n := 0
+			for _, site := range early {
+				if n < 3 {
+					n++
+					do(faultSpec(firstSpec, first, site))
+				}
+			}
+			for k := 0; k < 3 && len(other) != 0; k++ {
+				do(faultSpec(firstSpec, first, other[int(mix(p.Seed, uint64(k))%uint64(len(other)))]))
+			}
 		}
 	case "C20":
 		// racesim: real parallelism (waves), the race detector is the oracle
